@@ -129,6 +129,65 @@ def install_c19(reg, src):
                 ip.path.assume(z3.Select(val, k) == z3.If(c0 == 0, z3.Select(v.val, k), z3.If(c0 == 1, nanv, z3.If(c0 == 2, pinf, ninf))))
         seqs(ip).pointwise.append(pw)
         return out
+    # ---- reductions over the extended reals (IEEE semantics of NumPy: NaN propagates through max/min/sum; +Inf + -Inf = NaN)
+    from .seqtheory import named_exists
+
+    class XScalar:
+        """extended-real scalar: class in {0 finite, 1 NaN, 2 +Inf, 3 -Inf}"""
+        def __init__(self, cls):
+            self.cls = cls
+
+    def any_cls(ip, xa, k):
+        return named_exists(ip, f"ANYCLS{k}", [xa.cls], xa.n, lambda j: z3.Select(xa.cls, j) == k)(xa.n)
+
+    def x_max(ip, a, kw, sign=+1):
+        xa = a[0]
+        if not isinstance(xa, XArr):
+            raise Unsupported("np.max/np.min of an untracked value")
+        if ip.path.branch(xa.n <= 0, "empty array"):
+            ip.raise_exc("ValueError", "zero-size array to reduction operation")
+        nan, pinf, ninf, fin = any_cls(ip, xa, 1), any_cls(ip, xa, 2), any_cls(ip, xa, 3), any_cls(ip, xa, 0)
+        top, bot = (pinf, ninf) if sign > 0 else (ninf, pinf)
+        topc, botc = (2, 3) if sign > 0 else (3, 2)
+        cls = z3.If(nan, 1, z3.If(top, topc, z3.If(fin, 0, botc)))
+        return XScalar(cls)
+
+    def x_sum(ip, a, kw):
+        xa = a[0]
+        nan, pinf, ninf = any_cls(ip, xa, 1), any_cls(ip, xa, 2), any_cls(ip, xa, 3)
+        return XScalar(z3.If(z3.Or(nan, z3.And(pinf, ninf)), 1, z3.If(pinf, 2, z3.If(ninf, 3, 0))))
+
+    def x_size(ip, a, kw):
+        if isinstance(a[0], XArr):
+            return SInt(a[0].n)
+        raise Unsupported("np.size of an untracked value")
+
+    def x_any(ip, a, kw):
+        v = a[0]
+        if isinstance(v, SpecFn) and v.meta.get("xmask") is not None:
+            xa, pred = v.meta["xmask"]
+            return SBool(named_exists(ip, "ANYMASK_" + v.meta["maskname"], [xa.cls], xa.n, lambda j: pred(z3.Select(xa.cls, j)))(xa.n))
+        raise Unsupported("np.any of an untracked value")
+
+    def x_mask(name, pred):
+        def f(ip, a, kw):
+            v = a[0]
+            if isinstance(v, XArr):
+                return SpecFn(None, name + "-mask", meta={"xmask": (v, pred), "maskname": name})
+            if isinstance(v, XScalar):
+                return SBool(pred(v.cls))
+            raise Unsupported(f"np.{name} of an untracked value")
+        return f
+    reg.xarr_hooks = {"max": lambda ip, a, kw: x_max(ip, a, kw, +1), "min": lambda ip, a, kw: x_max(ip, a, kw, -1), "sum": x_sum,
+                      "size": x_size, "any": x_any, "isnan": x_mask("isnan", lambda c_: c_ == 1),
+                      "isinf": x_mask("isinf", lambda c_: z3.Or(c_ == 2, c_ == 3))}
+    _old_isfinite = isfinite_hook
+
+    def isfinite_hook2(ip, v):
+        if isinstance(v, XScalar):
+            return SBool(v.cls == 0)
+        return _old_isfinite(ip, v)
+    reg.isfinite_hook = isfinite_hook2
     from pyvc.spec import Schema
     Schema.np_all = lambda self, ip, v: np_all(ip, v)
     Schema.nan_to_num = lambda self, ip, v, kw: nan_to_num(ip, v, kw)
